@@ -101,13 +101,37 @@ void ut_close(int fd) { if (g_close_calls < 4) g_closed_fd[g_close_calls] = fd; 
 int unlink(const char *p) { (void)p; g_unlink_calls++; return 0; }
 int getsockname(int fd, struct sockaddr *a, socklen_t *l) { (void)fd; (void)a; (void)l; return nd_bool() ? 0 : -1; }
 static int g_stat_rc, g_socket_rc, g_bind_rc, g_listen_rc;
+char g_bound_path[112]; bool g_bound;
 int stat(const char *p, struct stat *st) { (void)p; if (g_stat_rc < 0) { errno = ENOENT; return -1; } st->st_mode = nd_bool() ? S_IFDIR : S_IFREG; return 0; }
 int socket(int d, int t, int p) { (void)d; (void)p; CHECK(t & SOCK_NONBLOCK, "C05: the control listen socket is non-blocking"); if (g_socket_rc < 0) { errno = EMFILE; return -1; } return LISTEN_FD; }
-int bind(int fd, const struct sockaddr *a, socklen_t l) { (void)fd; (void)a; (void)l; if (g_bind_rc < 0) { errno = EADDRINUSE; return -1; } return 0; }
+int bind(int fd, const struct sockaddr *a, socklen_t l) { (void)fd; (void)l; if (g_bind_rc < 0) { errno = EADDRINUSE; return -1; }
+#ifdef OP_CREATE_PATH
+    { const char *sp = (const char *)a + sizeof(sa_family_t);   /* sockaddr_un.sun_path (the struct is only defined inside ctl.c's includes) */
+      g_bound = true; for (int i = 0; i < 108; i++) g_bound_path[i] = sp[i]; g_bound_path[108] = 0; }
+#else
+    (void)a;
+#endif
+    return 0; }
 int listen(int fd, int b) { (void)fd; (void)b; if (g_listen_rc < 0) { errno = EADDRINUSE; return -1; } return 0; }
+#ifdef OP_CREATE_PATH
+static pid_t g_pid;
+pid_t getpid(void) { return g_pid; }
+#else
 pid_t getpid(void) { return 4711; }
+#endif
+#ifdef OP_CREATE_PATH
+/* the real common/common_ctl.c: XCM_CTL may be unset or name a directory of ANY length */
+#include "libc_str.h"
+#define snprintf m_snprintf
+#define ENVMAX 120
+static char g_env[ENVMAX + 1]; static bool g_env_set;
+char *getenv(const char *n) { (void)n; return g_env_set ? g_env : NULL; }
+#include "common_ctl.c"
+#undef snprintf
+#else
 void ctl_get_dir(char *buf, size_t cap) { (void)cap; buf[0] = '/'; buf[1] = 'r'; buf[2] = 0; }
-void ctl_derive_path(const char *d, pid_t pid, int64_t id, char *buf, size_t cap) { (void)d; (void)pid; (void)id; (void)cap; buf[0] = '/'; buf[1] = 'r'; buf[2] = '/'; buf[3] = 'c'; buf[4] = 0; }
+int ctl_derive_path(const char *d, pid_t pid, int64_t id, char *buf, size_t cap) { (void)d; (void)pid; (void)id; (void)cap; buf[0] = '/'; buf[1] = 'r'; buf[2] = '/'; buf[3] = 'c'; buf[4] = 0; return 0; }     /* the real one: ctl.create_path */
+#endif
 static int g_reg_add, g_reg_del, g_reg_mod_listen = -1, g_reg_mod_calls; static int g_reg_mod_client_event = -1;
 #define LISTEN_REG 20
 int xpoll_fd_reg_add(struct xpoll *x, int fd, int ev) { (void)x; (void)ev; g_reg_add++; return fd == LISTEN_FD ? LISTEN_REG : 20 + fd; }
@@ -319,6 +343,43 @@ int main(void)
 	ctl_destroy(c, true);
 	CHECK(g_close_calls == 1, "C08: closed once");
     }
+    return 0;
+}
+#endif
+
+#ifdef OP_CREATE_PATH
+/* C08/C14: whatever the XCM_CTL environment variable holds, creating a socket never terminates the process and never binds the
+ * control socket to a truncated (i.e. some other) path */
+int main(void)
+{
+    /* one concrete directory-name length per obligation (a symbolic 120-character string through the snprintf model does not
+       finish in 600 s); pid and socket id stay symbolic, so each length still covers path lengths n+8 .. n+16 */
+#if ENVLEN < 0
+    g_env_set = false; size_t n = 0;
+#else
+    g_env_set = true; size_t n = ENVLEN;
+#endif
+    for (size_t i = 0; i < ENVMAX; i++) g_env[i] = i < n ? 'd' : 0;
+    g_env[ENVMAX] = 0;
+    g_pid = (pid_t)nd_range(1, 99999); the_socket.sock_id = (int64_t)nd_range(0, 99999);
+    g_stat_rc = 0; g_socket_rc = 0; g_bind_rc = 0; g_listen_rc = 0;
+    the_socket.xpoll = (struct xpoll *)&the_socket;
+    struct ctl *c = ctl_create(&the_socket);          /* an abort() here is the asserting stub */
+    char want[ENVMAX + 32];
+    int need = m_snprintf(want, sizeof(want), "%s/ctl-%d-%ld", (g_env_set && n < 108) ? g_env : CTL_PROTO_DEFAULT_DIR, (int)g_pid, (long)the_socket.sock_id);
+    if (c != NULL) {
+	CHECK(g_bound && need < 108, "C14: the control socket is created only if its whole path fits sockaddr_un");
+	CHECK(strcmp(g_bound_path, want) == 0, "C14: the control socket is bound to <dir>/ctl-<pid>-<id>, complete - never to a truncated name (which a later close would unlink)");
+    } else
+	CHECK(need >= 108, "C14: a control path that fits is used");
+#if ENVLEN >= 92 && ENVLEN <= 99
+    WITNESS(c != NULL && need == 107, "path exactly fills sun_path");
+    WITNESS(c == NULL, "control interface not created: path too long");
+#elif ENVLEN >= 100 && ENVLEN < 108
+    WITNESS(c == NULL, "control interface not created: path too long");
+#else
+    WITNESS(c != NULL, "created");
+#endif
     return 0;
 }
 #endif
